@@ -505,13 +505,48 @@ func (s *TxnSite) leaderGuarded(P *Prog) (bool, string) {
 		return false, "transaction has no If(...)"
 	}
 	leaderKey := P.Field("server/election", "Leadership", "leaderKey")
-	for _, cm := range s.Cmps {
+	isLeaderCmp := func(cm Cmp) bool {
 		if cm.Target != "Value" || cm.Op != "=" || cm.Key == nil {
-			continue
+			return false
 		}
 		k := newKeyAtoms()
 		P.collectKeyAtoms(cm.Key, k, 2, map[ssa.Value]bool{})
-		if k.Fields[leaderKey] || k.Consts["leader"] {
+		return k.Fields[leaderKey] || k.Consts["leader"]
+	}
+	// When the If(...) is visible in this function its argument is examined per
+	// control-flow alternative: the leader comparator must be present on each.
+	if s.If != nil && len(s.If.Call.Args) == 1 {
+		alts := sliceAlternatives(s.If.Call.Args[0], 6)
+		for ai, alt := range alts {
+			has := false
+			for _, e := range alt {
+				vals := valueAlternatives(e, 3)
+				allLeader := len(vals) > 0
+				for _, v := range vals {
+					one := false
+					for _, cm := range P.resolveCmp(v, 2) {
+						if isLeaderCmp(cm) {
+							one = true
+						}
+					}
+					if !one {
+						allLeader = false
+					}
+				}
+				if allLeader {
+					has = true
+				}
+			}
+			if !has {
+				return false, fmt.Sprintf("comparator alternative #%d of %d carries no leader comparator", ai+1, len(alts))
+			}
+		}
+		if len(alts) > 0 {
+			return true, "leader comparator on every comparator alternative"
+		}
+	}
+	for _, cm := range s.Cmps {
+		if isLeaderCmp(cm) {
 			return true, cm.Desc
 		}
 	}
